@@ -59,9 +59,39 @@ def run(P, chk, tier):
                   "every write to inpacket.* in the ping and data handlers is dominated by answer_from_dnscache(..) == 0 "
                   "and answer_from_qmem[_data](..) == 0, and lies behind both pending-duplicate tests", "E1 + dominators", floor=20)
     dup_blocks = {}
+    dup_holders = {}            # block -> holders whose duplicate slot is filled there
+
+    def id2_holders(f_, depth=0):
+        out = set()
+        for b_, y in f_.all_nodes():
+            if y.get("k") == "Bin" and y["op"] == "=" and pp(sk(y["a"][0])).endswith("id2") and cval(sk(y["a"][1])) != 0:
+                t0 = pp(sk(y["a"][0]))
+                out.add("q_sendrealsoon" if "q_sendrealsoon" in t0 else ("q" if ".q." in t0 else "?"))
+        return out
     for b, x in hnr.all_nodes():
         if x.get("k") == "Bin" and x["op"] == "=" and pp(sk(x["a"][0])).endswith(".id2") and pp(sk(x["a"][1])).endswith("->id"):
             dup_blocks[b.id] = x
+            t0 = pp(sk(x["a"][0]))
+            dup_holders.setdefault(b.id, set()).add("q_sendrealsoon" if "q_sendrealsoon" in t0 else "q")
+        elif x.get("k") == "Call":
+            # the same bookkeeping moved into a helper: a callee that fills in the duplicate slot of a holder
+            t_ = P.callee(x, hnr)
+            if t_ is None or t_.name == SENDER:
+                continue
+            hs = id2_holders(t_)
+            if not hs:
+                continue
+            got = set()
+            for a_ in x.get("a", ()):
+                ho = holder_of(a_)
+                if ho is not None:
+                    got.add(ho[1])
+            if "?" in hs and not got:
+                hs = set()
+            hs = (hs - {"?"}) | got
+            if hs:
+                dup_blocks[b.id] = x
+                dup_holders.setdefault(b.id, set()).update(hs)
     neff = 0
     for b, x in hnr.all_nodes():
         if b.id in other or not (b.id in reach_ping or b.id in reach_data):
@@ -83,7 +113,10 @@ def run(P, chk, tier):
         # behind the pending-duplicate tests of its handler: not reachable from a remember-block, and the nearest
         # common dominator with each remember-block tests the holder
         mine = [db for db in dup_blocks if (db in reach_ping) == (b.id in reach_ping and b.id not in reach_data)]
-        okdup = len(mine) >= 2
+        okdup = set().union(*[dup_holders.get(db, set()) for db in mine]) >= {"q", "q_sendrealsoon"} if mine else False
+        if not mine:
+            chk.undecided(r1, hnr, ir.loc(x), eff, "the place where a pending duplicate is remembered (id2 = q->id) is not found in this handler")
+            continue
         for db in mine:
             ncd = _ncd(hnr, db, b.id)
             cnd = hnr.blocks[ncd].term.get("cond") if hnr.blocks[ncd].term else None
@@ -158,13 +191,9 @@ def remember(P, E, chk, snd):
     an = E.analysis(snd)
     b, c = list(snd.calls("save_to_dnscache"))[0]
     ds = an.before_node(c["n"]) or []
-    fm = L.lin(c["a"][3])
-    mx = None
-    if fm is not None and len(fm[0]) == 1:
-        k0 = next(iter(fm[0]))
-        his = [guard.d_bounds(d, k0)[1] for d in ds]
-        if all(h is not None for h in his):
-            mx = max(his) * fm[0][k0] + fm[1]
+    from iosa import wbound
+    his = [wbound.ival(c["a"][3], d)[1] for d in ds]
+    mx = max(his) if his and all(h is not None for h in his) else None
     lenp = sd.params[3]["ref"]["name"]
     bounds = []
     for bb in sd.blocks.values():
@@ -179,8 +208,11 @@ def remember(P, E, chk, snd):
                     bounds.append((cval(sk(cnd["a"][1])) + (0 if cnd["op"] == ">" else -1), cnd))
     K = min(b_[0] for b_ in bounds) if bounds else None
     okc = mx is not None and (K is None or K >= mx)
-    chk.site(r2, sd, ir.loc(bounds[0][1]) if bounds else sd.line, "answer cache accepts every answer", okc,
-             "largest payload of the sender %s, cache refuses above %s" % (mx, K))
+    if mx is None:
+        chk.undecided(r2, snd, ir.loc(c), "answer cache accepts every answer", "the largest payload the sender hands to the cache is not bounded by the facts at the call")
+    else:
+        chk.site(r2, sd, ir.loc(bounds[0][1]) if bounds else sd.line, "answer cache accepts every answer", okc,
+                 "largest payload of the sender %s, cache refuses above %s" % (mx, K))
     # the copy into the slot is bounded by the slot
     an2 = E.analysis(sd)
     for b2, c2 in sd.calls("memcpy"):
